@@ -36,6 +36,11 @@ def _gen_case_a(seed: int, tier: str, index: int) -> Dict[str, Any]:
     timeout = rng.choice([t for t in (2, 4, 6, 10) if t >= initial])
     tables = {"idle": {"DISCOVERY_INITIAL_TIMEOUT_IN_SECONDS": initial, "DISCOVERY_TIMEOUT_IN_SECONDS": timeout},
               "active": {"DISCOVERY_INITIAL_TIMEOUT_IN_SECONDS": initial, "DISCOVERY_TIMEOUT_IN_SECONDS": timeout}}
+    shipped = rng.random() < 0.15
+    if shipped:
+        # the shipped timing tables, untouched (both say: initial wait 4 s, discovery timeout 10 s), in the idle or in the active mode
+        # (the mode is process-wide: a discovery runs in active mode when a pump of another / the previous connection is on)
+        initial, timeout, tables = 4, 10, None
     net: Dict[str, Any] = {"lat_min": 0.001, "lat_max": 0.01}
     loop_cfg: Dict[str, Any] = {"cost_small_p": 0.2, "cost_small_max": 0.004}
     if rng.random() < 0.25:
@@ -80,6 +85,7 @@ def _gen_case_a(seed: int, tier: str, index: int) -> Dict[str, Any]:
             spec["replies"] = spec["replies"] * (1 + len(more)) + [[0.01]] * 4
     cfg = {"profile": profile, "net": net, "loop": loop_cfg, "tables": tables, "initial": initial, "timeout": timeout,
            "use_real": use_real, "filter": filt, "pick": rng.randrange(100), "more_rounds": more,
+           "active_mode": rng.random() < (0.6 if shipped else 0.2),
            # the client's event handler may really suspend (it is awaited from inside the hello consumer task)
            "handler_suspend_p": rng.choice([0.0, 0.0, 0.5, 1.0]), "handler_suspend_max": rng.choice([0.05, 0.3, 1.5]),
            "other_tasks": rng.choice([[], [], [["done"]], [["done", "live"]], [["done", "done", "done"], ["live", "done"]], [["live"], ["done"]]])}
@@ -135,6 +141,16 @@ async def scenario(world: WorldA) -> None:
         world.peers.append(peer)
         everyone.append((SPA_IP, SPA_ID.encode(), SPA_NAME))
     rounds = [{"filter": cfg["filter"], "pick": cfg["pick"], "gap": 0.0}] + list(cfg.get("more_rounds", []))
+    if cfg.get("active_mode"):
+        from geckolib.config import config_sleep, set_config_mode
+
+        # (the shared change future exists once something has slept on it, as in a running client)
+        sl = asyncio.ensure_future(config_sleep(0.001))
+        await asyncio.sleep(0)
+        set_config_mode(True)
+        await asyncio.sleep(0.01)
+        sl.cancel()
+        res.probe("discovery_in_active_mode" + ("_shipped_tables" if cfg.get("tables") is None else ""))
     taskman = None
     for ri, rnd in enumerate(rounds):
         f, pick = rnd["filter"], rnd["pick"]
@@ -356,7 +372,7 @@ ASSUMPTIONS = [
     "the hello consumer takes one queued reply per polling interval; 'answered by the time of return' allows that service time",
     "two spas never share an identifier",
 ]
-PROBES = ["blocking_locator", "identifier_given_as_bytes", "second_discovery_in_one_process", "name_with_separator", "duplicate_replies", "reply_after_return", "nothing_listed", "three_or_more_listed", "returned_on_requested_spa"]
+PROBES = ["discovery_in_active_mode", "discovery_in_active_mode_shipped_tables", "blocking_locator", "identifier_given_as_bytes", "second_discovery_in_one_process", "name_with_separator", "duplicate_replies", "reply_after_return", "nothing_listed", "three_or_more_listed", "returned_on_requested_spa"]
 N_QUICK = 60000
 
 
